@@ -45,7 +45,7 @@ def check_c10(tier, seed):
     bad_texts = 0
     for b, rec, it in zip(behaviours, recs, items):
         if rec.get("outcome") != "Ok":
-            v.report("C10 LineIndex::new outcome=%s" % rec.get("outcome"), {"text": b["text"], "rec": rec}, {"text": b["text"], "to": b["to"], "from": b["from"]})
+            v.report("C10 LineIndex::new outcome=%s " % rec.get("outcome"), {"text": b["text"], "rec": rec}, {"text": b["text"], "to": b["to"], "from": b["from"]})
             bad_texts += 1
             continue
         bad = None
